@@ -24,3 +24,12 @@ for id in $ids; do
   echo "| $id | $st | ${e}s | $last |" >> $out/status.rows
   echo "$id rc=$rc ${e}s $last"
 done
+{
+  echo "# Thorough tier: status of the last runs on the unchanged tree"
+  echo
+  echo "Written by tools/runthorough.sh (budget per check: ${budget}s on this 16-core sandbox). A check whose thorough bounds did not finish inside the budget is **not** counted as success: its registered claim stays the quick-tier bounds; the thorough command remains available with a larger budget."
+  echo
+  echo "| check | outcome | wall | last line |"
+  echo "|----|----|----|----|"
+  cat $out/status.rows
+} > /verif/THOROUGH_STATUS.md
